@@ -1341,6 +1341,15 @@ def b_iter(interp, args, kwargs):
 
 def b_next(interp, args, kwargs):
     it = args[0]
+    if isinstance(it, (ListV, TupleV)):
+        # first element of a (generator-expression) sequence
+        if it.items:
+            if isinstance(it, ListV):
+                return it.items.pop(0)
+            return it.items[0]
+        if len(args) > 1:
+            return args[1]
+        raise AbsRaise(T('exc', 'StopIteration'))
     if isinstance(it, Obj):
         f = interp.get_attr(it, '__next__', missing_ok=True)
         if f is not None:
